@@ -661,6 +661,7 @@ def run(c, facts):
     c.shared(R8, c15.r3_reset_all, 'C15.R3', facts)
     c.shared(R8, c15.r6_doc_sync, 'C15.R6', facts)
     c.shared(R8, c15.r4_change, 'C15.R4', facts)
+    c.run(lambda c: c15.r19_every_error(c, facts, rule='C13.R21'))      # an error the load or the evaluation logged is a diagnostic the server publishes: the CLI fails on it
     import c10
     import c11 as _c11
     c.run(lambda c: _c11.r14_report_units(c, facts, rule='C13.R17'))
